@@ -413,3 +413,116 @@ def check_witness_reader(ctx, oid):
             "decode_script(witness=True) does not return (items, remainder) for item lengths %s: %s" % (_short(bad[0][0]) if bad else "", bad[0][1] if bad else ""),
             example=("a witness stack with item lengths %s" % _short(bad[0][0])) if bad else None)
     R.floor(oid, len(stacks), 10, "witness_stacks")
+
+
+def _cs_forms(count):
+    """(label, prefix bytes) of every CompactSize form that can carry `count` (canonical or not: readers follow the prefix)."""
+    forms = []
+    if count < 253:
+        forms.append(("direct", bytes([count])))
+    if count <= 0xFFFF:
+        forms.append(("fd", b"\xfd" + count.to_bytes(2, "little")))
+    if count <= 0xFFFFFFFF:
+        forms.append(("fe", b"\xfe" + count.to_bytes(4, "little")))
+    forms.append(("ff", b"\xff" + count.to_bytes(8, "little")))
+    return forms
+
+
+def check_codec_readers(ctx, oid):
+    """Payload readers on crafted payloads: every field an arbitrary value of its wire width, every count-prefix form."""
+    R = ctx.R
+    ev = ctx.evaluator(max_depth=12)
+    PP = "bits.p2p."
+    le = lambda v, n: tm.i2b(v, n, "little")
+    be = lambda v, n: tm.i2b(v, n, "big")
+
+    def run(q, args):
+        fi = ctx.fn(PP + q)
+        k, v = rules.outcome(ev.run(fi, args, use_defaults=True))
+        return fi, k, v
+
+    # ---- version: user agent lengths 0..252 (one-byte length; longer user agents are never built by this library)
+    names = ["protocol_version", "services", "timestamp", "addr_recv_services", "addr_recv_port", "addr_trans_services", "addr_trans_port", "nonce", "start_height"]
+    val = {k: P(k, tm.INT) for k in names}
+    ip1, ip2 = b"::ffff:127.0.0.1", b"::ffff:10.0.0.201"[:16]
+    badv = []
+    for n in (range(0, 253) if ctx.thorough else (0, 1, 12, 40, 252)):
+        for relay in (1, 0):
+            ua = tm.sized("user_agent", n)
+            pay = tm.cat([le(val["protocol_version"], 4), le(val["services"], 8), le(val["timestamp"], 8), le(val["addr_recv_services"], 8), ip1, be(val["addr_recv_port"], 2),
+                          le(val["addr_trans_services"], 8), ip2, be(val["addr_trans_port"], 2), le(val["nonce"], 8), bytes([n]), ua, le(val["start_height"], 4), bytes([relay])])
+            fp, k, got = run("parse_version_payload", {"versionpayload_": pay})
+            bad = []
+            if k != "return" or not isinstance(got, dict):
+                bad.append("%s %s" % (k, tm.show(got)[:100]))
+            else:
+                for key in names:
+                    if not tm.veq(got.get(key), val[key]):
+                        bad.append(key)
+                if got.get("addr_recv_ip_addr") != ip1.decode() or got.get("addr_trans_ip_addr") != ip2.decode():
+                    bad.append("ip addresses")
+                if got.get("relay") is not bool(relay):
+                    bad.append("relay=%s" % tm.show(got.get("relay", "missing"))[:40])
+                if n and not tm.veq(got.get("user_agent"), ua):
+                    bad.append("user_agent")
+                if got.get("user_agent_bytes") != n:
+                    bad.append("user_agent_bytes")
+            if bad:
+                badv.append((n, relay, bad))
+    R.check(oid, "ROUND-TRIP", fp, "version reader: every field at its offset / width / endianness, relay flag, user agent of 0..252 bytes", not badv,
+            "parse_version_payload misreads a well-formed payload (user agent %s bytes, relay %s): %s" % (badv[0] if badv else ("", "", "")),
+            example=("a version message with a %d-byte user agent and relay = %d" % badv[0][:2]) if badv else None)
+    # ---- getheaders
+    badg = []
+    for c in (0, 1, 3) + ((253,) if True else ()):
+        hs = [tm.sized("h%d" % i, 32) for i in range(c)]
+        stop = tm.sized("stop", 32)
+        for lab, prefix in _cs_forms(c):
+            pay = tm.cat([le(P("pv", tm.INT), 4), prefix] + hs + [stop])
+            fp, k, got = run("parse_getheaders_payload", {"payload": pay})
+            ok = k == "return" and isinstance(got, dict) and tm.veq(got.get("protocol_version"), P("pv", tm.INT)) and got.get("hash_count") == c and \
+                _same(got.get("block_header_hashes", []), [tm.hexs(h) for h in hs]) and tm.veq(got.get("stop_hash"), tm.hexs(stop))
+            if not ok:
+                badg.append((c, lab, k, tm.show(got)[:140]))
+    R.check(oid, "ROUND-TRIP", fp, "getheaders reader: counts 0/1/3/253 in every count-prefix form (direct, fd, fe, ff)", not badg,
+            "parse_getheaders_payload misreads %s hashes with the %s count form: %s %s" % (badg[0] if badg else ("", "", "", "")),
+            example=("a getheaders payload with %d hashes, %s count form" % badg[0][:2]) if badg else None)
+    # ---- inv
+    types = ev.const("bits.p2p", "INVENTORY_TYPE_ID")
+    badi = []
+    if isinstance(types, dict) and types:
+        tn = sorted(types)
+        for c in (0, 1, 3, 253):
+            entries, want = [], []
+            for i in range(c):
+                name = tn[i % len(tn)]
+                h = tm.sized("x%d" % i, 32)
+                entries.append(tm.cat([types[name].to_bytes(4, "little"), h]))
+                want.append({"type_id": name, "hash": tm.hexs(h)})
+            for lab, prefix in _cs_forms(c):
+                fp, k, got = run("parse_inv_payload", {"payload": tm.cat([prefix] + entries)})
+                ok = k == "return" and isinstance(got, dict) and got.get("count") == c and _same(got.get("inventory"), want)
+                if not ok:
+                    badi.append((c, lab, k, tm.show(got)[:140]))
+        R.check(oid, "ROUND-TRIP", fp, "inv reader: counts 0/1/3/253 in every count-prefix form, all inventory types, 36-byte entries", not badi,
+                "parse_inv_payload misreads %s entries with the %s count form: %s %s" % (badi[0] if badi else ("", "", "", "")),
+                example=("an inv payload with %d entries, %s count form" % badi[0][:2]) if badi else None)
+    # ---- addr
+    bada = []
+    for c in (0, 1, 3, 253):
+        entries, want = [], []
+        for i in range(c):
+            t, sv, ip, port = P("time%d" % i, tm.INT), tm.sized("services%d" % i, 8), tm.sized("ip%d" % i, 16), P("port%d" % i, tm.INT)
+            entries.append(tm.cat([le(t, 4), sv, ip, be(port, 2)]))
+            want.append({"time": t, "services": sv, "ip_addr": ip, "port": port})
+        for lab, prefix in _cs_forms(c):
+            fp, k, got = run("parse_addr_payload", {"payload": tm.cat([prefix] + entries)})
+            ok = k == "return" and isinstance(got, dict) and _same(got.get("addrs"), want)
+            if not ok:
+                bada.append((c, lab, k, tm.show(got)[:140]))
+    R.check(oid, "ROUND-TRIP", fp, "addr reader: counts 0/1/3/253 in every count-prefix form, 30-byte entries", not bada,
+            "parse_addr_payload misreads %s entries with the %s count form: %s %s" % (bada[0] if bada else ("", "", "", "")),
+            example=("an addr payload with %d entries, %s count form" % bada[0][:2]) if bada else None)
+    # ---- ping, inventory
+    fp, k, got = run("parse_ping_payload", {"payload": le(P("nonce", tm.INT), 8)})
+    R.check(oid, "ROUND-TRIP", fp, "ping reader: nonce little-endian", k == "return" and isinstance(got, dict) and tm.veq(got.get("nonce"), P("nonce", tm.INT)), "parse_ping_payload: %s" % tm.show(got)[:80])
